@@ -236,14 +236,15 @@ Definition k9_out :=
     (list (string * Z)) zdump (fun es fx t => constrain_list FNum 1e-8%float fx 0 es t)
     (fun _ _ m => m) (fun _ => true) k9_config k9_tables k9_result.
 
+(** input rows: mutation (node 0, state 7) then (node 2, state 8); migrations tagged 0 then 1.
+    output rows: both tables come back in the other order *)
 Lemma k9_witness :
-  exists out log, k9_out = Modified out log /\
-    map (fun m : mut_row FNum Z Z => (m_node m, m_state m)) (muts k9_tables) = [(0, 7%Z); (2, 8%Z)] /\
-    map (fun m : mut_row FNum Z Z => (m_node m, m_state m)) (muts out) = [(2, 8%Z); (0, 7%Z)] /\
-    map g_md (migs k9_tables) = [[0%Z]; [1%Z]] /\
-    map g_md (migs out) = [[1%Z]; [0%Z]].
-Proof.
-  eexists. eexists. split; [vm_compute; reflexivity|].
-  split; [vm_compute; reflexivity|]. split; [vm_compute; reflexivity|].
-  split; vm_compute; reflexivity.
-Qed.
+  map (fun m : mut_row FNum Z Z => (m_node m, m_state m)) (muts k9_tables) = [(0, 7%Z); (2, 8%Z)] /\
+  map g_md (migs k9_tables) = [[0%Z]; [1%Z]] /\
+  match k9_out with
+  | Modified out _ =>
+      map (fun m : mut_row FNum Z Z => (m_node m, m_state m)) (muts out) = [(2, 8%Z); (0, 7%Z)] /\
+      map g_md (migs out) = [[1%Z]; [0%Z]]
+  | Failed _ => False
+  end.
+Proof. vm_compute. repeat split. Qed.
